@@ -1,5 +1,6 @@
 SPECIFICATION Spec
 CONSTANTS
+  Dim = 2
   MaxNodes = 3
   MinNodes = 3
   Widths = {2}
@@ -12,11 +13,16 @@ CONSTANTS
   AllowPool = FALSE
   AllowAdd = FALSE
   AllowDw = FALSE
+  AllowReuse = FALSE
   TupMode = "pc1"
   WType = "pc"
   SelMode = "rot"
+  MaxHist = 0
+  Walk = "fixed"
   Lin = "pinned"
-  GuardF40 = TRUE
+  GuardF40 = FALSE
   GuardF05 = TRUE
+  GuardReuse = TRUE
 INVARIANT InvCostExact
 INVARIANT InvSpecKeys
+INVARIANT InvPerInvocation
